@@ -21,6 +21,7 @@ struct C12ValPlan
   int work;
   int nops;
   int ops[14];
+  int empty_at;         // >= 1: this assignment writes the natural 'nothing' value of the payload type (0, empty string); -1: none
 };
 extern "C" {
 const C12BufPlan *c12buf_plan();
